@@ -12,8 +12,10 @@ non-negative, and `dz <= limit` makes the self-weight non-negative.
 Inter-assembly gap (flow model): the real Core._flow_model and core.calculate_min_dz are
 executed symbolically on real 2- and 3-assembly cores; Gen/C04Gap.lean holds, per gap cell,
 the generated theorem with its proof (affine form, non-negative weights, `dz <= the cell's
-traced limit` gives a non-negative self weight).  Unrodded regions, the no-flow / duct-average
-gap models and adiabatic walls are decided by the probing oracle.
+traced limit` gives a non-negative self weight).  Low-fidelity regions: the same for the real
+`_calc_coolant_temp` of the simple and six-node models and region_unrodded.calculate_min_dz
+(Gen/C04Ur.lean, low-flow approximation on/off, adiabatic six-node).  The no-flow / duct-average
+gap models are decided by the probing oracle.
 """
 import random
 from fractions import Fraction
@@ -295,10 +297,114 @@ def collect_gap(ctx):
     return names
 
 
+def collect_unrodded(ctx):
+    """Low-fidelity (unrodded) regions: the real SingleNodeHomogeneous / MultiNodeHomogeneous `_calc_coolant_temp` and the real
+    region_unrodded.calculate_min_dz are executed symbolically (simple and six-node model, low-flow approximation on/off,
+    coupled wall; adiabatic six-node).  One generated theorem per (variant, node)."""
+    import copy
+    import re
+    import dassh.region_unrodded as UR
+    from harness.trace import symarray
+    L = ["-- GENERATED by /verif/harness (C04, low-fidelity regions): traced from dassh.region_unrodded._calc_coolant_temp / calculate_min_dz.",
+         "import Mathlib.Algebra.Order.Field.Basic", "import Mathlib.Tactic.FieldSimp", "import Mathlib.Tactic.Ring",
+         "import Mathlib.Tactic.Linarith", "import Mathlib.Tactic.Positivity", "",
+         "namespace Dassh.Gen.C04Ur", "", "variable {K : Type} [Field K] [LinearOrder K] [IsStrictOrderedRing K]", ""]
+    names = []
+    ftf = [0.11, 0.116]
+    for model, cls in (("simple", UR.SingleNodeHomogeneous), ("6node", UR.MultiNodeHomogeneous)):
+        for conv_approx in (False, True):
+            for adiabatic in ((False,) if model == "simple" else (False, True)):
+                tag = "%s_%s%s" % ("simple" if model == "simple" else "six", "ca" if conv_approx else "std", "_adiab" if adiabatic else "")
+                reg = cls('ur', 0.0, 1.0, ftf, 0.3, 5.0, du.const_material('cool'), du.const_material('duct', k=25.0), None,
+                          convection_factor=0.7)
+                tr = Trace()
+                o = copy.copy(reg)
+                nn = reg.temp['coolant_int'].shape[0]
+                o.temp = {k: v.copy() for k, v in reg.temp.items()}
+                o.temp['coolant_int'] = symarray(tr, 'T', np.full(nn, 650.0))
+                o.temp['duct_mw'] = symarray(tr, 'Tmw', np.full((1, 6), 640.0))
+                o.temp['duct_surf'] = symarray(tr, 'Ts', np.full((1, 2, 6), 645.0))
+
+                class M:
+                    pass
+                dm, cm = M(), M()
+                dm.thermal_conductivity = tr.var('kw', 25.0)
+                dm.update = lambda T: None
+                cm.thermal_conductivity = tr.var('k', 60.0)
+                cm.heat_capacity = tr.var('cp', 1270.0)
+                cm.temperature = 650.0
+                o.duct, o.coolant = dm, cm
+                o._update_coolant_params = lambda *a, **k: None
+                o.coolant_params = dict(reg.coolant_params)
+                o.coolant_params['htc'] = tr.var('h', 2.0e4)
+                o.duct_thickness = tr.var('th', reg.duct_thickness)
+                o.duct_perim = tr.var('perim', reg.duct_perim)
+                o.duct_perim_over_6 = o.duct_perim / 6
+                o.flow_rate = tr.var('mdot', 5.0)
+                o._mratio = tr.var('mratio', 0.7)
+                if model == "6node":
+                    o._scfr = tr.var('msc', reg._scfr)
+                    o._cond = dict(reg._cond)
+                    o._cond['const'] = tr.var('cc', float(np.ravel(reg._cond['const'])[0]))
+                o._conv_approx = conv_approx
+                o.ebal = None
+                dz = tr.var('dz', 1e-3)
+                q = tr.var('q', 1.0e4)
+                try:
+                    dT = rebind(cls._calc_coolant_temp, tr)(o, dz, {'refl': q}, adiabatic, False)
+                    lim, code = rebind(UR.calculate_min_dz, tr, {'min': lambda xs: xs[0]})(o, 600.0, 700.0, adiabatic)
+                except Exception as ex:
+                    import traceback
+                    ctx.problem("trace-failed", "c04 unrodded " + tag, traceback.format_exc()[-800:])
+                    continue
+                dT = np.atleast_1d(dT)
+                for i in range(nn):
+                    tnew = o.temp['coolant_int'][i] + dT[i]
+                    vs = sorted(used_vars([tnew, lim]))
+                    tvars = [v for v in vs if re.match(r"T_\d+$|Tmw_\d+_\d+$|Ts_\d+_\d+_\d+$", v)]
+                    own = "T_%d" % i
+                    others = [v for v in tvars if v != own]
+                    params = [v for v in vs if v not in tvars and v != 'q']
+                    tr2 = Trace()
+                    ident = lambda v: v
+                    t2 = rename(tnew, ident, tr2)
+                    fix = lambda t: t.replace("(1 : α)", "(1 : K)").replace("(0 : α)", "(0 : K)").replace("(2 : α)", "(2 : K)").replace("(6 : α)", "(6 : K)")
+                    ws = []
+                    for v in others:
+                        mp = {u: 0 for u in tvars}
+                        mp[v] = 1
+                        mp['q'] = 0
+                        ws.append(fix(to_lean(substitute(t2, mp, tr2))))
+                    mp0 = {u: 0 for u in tvars}
+                    btxt = fix(to_lean(substitute(t2, mp0, tr2)))
+                    limtxt = fix(to_lean(rename(lim, ident, tr2)))
+                    wsum = " + ".join(ws) if ws else "(0 : K)"
+                    nm = "ur_%s_%d" % (tag, i)
+                    hyps = " ".join("(h_%s : 0 < %s)" % (v, v) for v in params)
+                    L.append("/-- %s model%s%s, node %d -/" % (model, ", low-flow approximation" if conv_approx else "",
+                                                               ", adiabatic wall" if adiabatic else "", i))
+                    L.append("theorem %s (%s : K) %s\n    (hlim : dz ≤ %s) :\n    %s = (1 - (%s)) * %s + (%s) + %s\n    ∧ %s\n    ∧ 0 ≤ 1 - (%s) := by"
+                             % (nm, " ".join(tvars + params + ['q']), hyps, limtxt, fix(to_lean(t2)), wsum, own,
+                                " + ".join("%s * %s" % (w, v) for w, v in zip(ws, others)) if ws else "(0 : K)", btxt,
+                                " ∧ ".join("0 ≤ %s" % w for w in ws) if ws else "True", wsum))
+                    L.append("  have hl : 0 < %s := by positivity" % limtxt)
+                    L.append("  have hsum : (%s) * (%s) = dz := by\n    field_simp\n    try ring" % (wsum, limtxt))
+                    L.append("  refine ⟨by field_simp; ring, %s, ?_⟩" % (", ".join("by positivity" for _ in ws) if ws else "trivial"))
+                    L.append("  have h1 : (%s) * (%s) ≤ 1 * (%s) := by rw [hsum, one_mul]; exact hlim" % (wsum, limtxt, limtxt))
+                    L.append("  have h2 : %s ≤ 1 := le_of_mul_le_mul_right h1 hl" % wsum)
+                    L.append("  linarith\n")
+                    names.append(nm)
+                ctx.count("unrodded_nodes_traced", nn)
+    L.append("end Dassh.Gen.C04Ur\n")
+    ctx.gen("C04Ur", "\n".join(L))
+    return names
+
+
 def generate(ctx):
     defs = collect(ctx, random.Random(2000))
     ctx.gen("C04", render(defs))
     collect_gap(ctx)
+    collect_unrodded(ctx)
     return defs
 
 
@@ -310,12 +416,13 @@ def run(ctx):
         defs = collect(ctx, random.Random(2000))
         ctx.gen("C04", render(defs))
         collect_gap(ctx)
+        collect_unrodded(ctx)
     except Exception:
         import traceback
         ctx.problem("trace-failed", "c04 tracer", traceback.format_exc()[-2000:])
         defs = None
     if defs is not None:
-        ctx.prove("Dassh.Props.C04", also=["Dassh.Gen.C04Gap"])
+        ctx.prove("Dassh.Props.C04", also=["Dassh.Gen.C04Gap", "Dassh.Gen.C04Ur"])
     oracle_rodded(ctx, rng, 200 if ctx.thorough else 40)
     oracle_unrodded(ctx, rng, 300 if ctx.thorough else 60)
     oracle_core(ctx, rng, 60 if ctx.thorough else 12)
